@@ -17,6 +17,8 @@ Sources mirrored (the s/c/z twins differ only in the value type and in reading (
                                                                   counting sort)
 * SRC/dreadtriple.c:27-128 `dreadtriple`        -> `readTriple`
 * counting sort (dreadMM.c:183-207, dreadtriple.c:98-122) -> `cscOfTriplets`
+* SRC/dreadhb.c:162-183, zreadhb.c:162-193 once more, loop by loop -> `Values.readValues`,
+  `Values.readValuesCx` (section 9; `readHBRBLoops` is `readHBRB` over them)
 
 The model implements the DOCUMENTED behaviour where the pinned code deviates from it:
 * symmetric expansion has `2*nnz - ndiag` entries (the code sizes its arrays as `2*nnz - n`);
@@ -452,5 +454,175 @@ def renderFloatFmt (scale : Option (Int × Bool)) (k : Nat) (letter : Char) (w d
     | none => []) ++ natDigits k ++ [letter] ++ natDigits w ++ ['.'] ++ natDigits d ++ [')']
 
 def renderIntFmt (k w : Nat) : List Char := ['('] ++ natDigits k ++ ['I'] ++ natDigits w ++ [')']
+
+/-! ## 9. The value layer of `[sdcz]ReadValues`, loop by loop (dreadhb.c:162-183, zreadhb.c:162-193;
+the same text in `[sdcz]readrb.c`)
+
+Section 4 specifies the value block as "the first `n` fields"; this section follows the C statements
+instead: the `while (i < n)` loop over text lines, the `for (j = 0; j < perline && i < n; j++)` loop
+over the fields of one line, the cut `buf[(j+1)*persize] = 0; &buf[j*persize]`, the replacement of the
+Fortran exponent letter, the conversion, and — for the complex types — the toggle `pair` that is
+initialised once, BEFORE the line loop, so that a (real, imaginary) pair may straddle a line end.
+`conv` stands for `atof` (libc); a text line is what `fgets(buf, 100, fp)` delivers (`fgetsLines`).
+A stream that ends early is outside the model (the C code then re-reads its stale buffer): the model
+stops at the last line. -/
+namespace Values
+
+variable {α σ : Type}
+
+/-- the inner loop `for (j = 0; j < perline && i < n; j++) { ... }` on one line; `fuel = perline - j`,
+`more st` is the test `i < n` on the loop state, `body` what is done with the field text:
+* `tmp = buf[(j+1)*persize]; buf[(j+1)*persize] = 0; s = j*persize;`  -> `field line j persize`
+* `for (k = 0; k < persize; ++k) if (buf[s+k] == 'D' || buf[s+k] == 'd') buf[s+k] = 'E';` -> `dToE`
+* the statements between the replacement and `buf[(j+1)*persize] = tmp;`               -> `body` -/
+def scanLine (persize : Nat) (body : List Char → σ → σ) (more : σ → Bool) (line : List Char) :
+    Nat → Nat → σ → σ
+  | 0, _, st => st
+  | fuel + 1, j, st =>
+    if more st then
+      scanLine persize body more line fuel (j + 1) (body (dToE (field line j persize)) st)
+    else st
+
+/-- the outer loop `while (i < n) { fgets(buf, 100, fp); for ... }` -/
+def scanLines (perline persize : Nat) (body : List Char → σ → σ) (more : σ → Bool) :
+    List (List Char) → σ → σ
+  | [], st => st
+  | line :: rest, st =>
+    if more st then scanLines perline persize body more rest (scanLine persize body more line perline 0 st)
+    else st
+
+/-- `dReadValues` / `sReadValues` (dreadhb.c:162-183): `destination[i++] = atof(&buf[s]);`
+The state is the list of values stored so far (`i` is its length). -/
+def readValues (perline persize : Nat) (conv : List Char → α) (n : Nat) (lines : List (List Char)) : List α :=
+  scanLines perline persize (fun f out => out ++ [conv f]) (fun out => decide (out.length < n)) lines []
+
+/-- state of `zReadValues`: the pairs stored so far (`i` is their number) and the toggle together
+with the pending real part: `none` is `pair == 0`, `some re` is `pair == 1, realpart == re` -/
+structure CxState (α : Type) where
+  out : List (α × α)
+  pend : Option α
+
+/-- zreadhb.c:178-187: `if (pair == 0) { realpart = atof(&buf[s]); pair = 1; }
+else { destination[i].r = realpart; destination[i++].i = atof(&buf[s]); pair = 0; }` -/
+def cxBody (conv : List Char → α) (f : List Char) (st : CxState α) : CxState α :=
+  match st.pend with
+  | none => { out := st.out, pend := some (conv f) }
+  | some re => { out := st.out ++ [(re, conv f)], pend := none }
+
+/-- `zReadValues` / `cReadValues` (zreadhb.c:162-193): `i = pair = 0;` once, then the two loops; `n`
+complex numbers are `2n` fields, and the toggle survives the line breaks. -/
+def readValuesCx (perline persize : Nat) (conv : List Char → α) (n : Nat) (lines : List (List Char)) :
+    List (α × α) :=
+  (scanLines perline persize (cxBody conv) (fun st => decide (st.out.length < n)) lines
+    { out := [], pend := none }).out
+
+/-- the outer loop of a WRONG variant that clears the toggle whenever a new line is fetched
+(`pair = 0;` moved inside the `while`) -/
+def scanLinesReset (perline persize : Nat) (conv : List Char → α) (n : Nat) :
+    List (List Char) → CxState α → CxState α
+  | [], st => st
+  | line :: rest, st =>
+    if decide (st.out.length < n) then
+      scanLinesReset perline persize conv n rest
+        (scanLine persize (cxBody conv) (fun st => decide (st.out.length < n)) line perline 0
+          { out := st.out, pend := none })
+    else st
+
+/-- the variant: right for even `perline`, wrong as soon as a pair straddles a line end -/
+def readValuesCxResetPerLine (perline persize : Nat) (conv : List Char → α) (n : Nat)
+    (lines : List (List Char)) : List (α × α) :=
+  (scanLinesReset perline persize conv n lines { out := [], pend := none }).out
+
+/-- the text lines `fgets(buf, 100, fp)` delivers until the stream is exhausted -/
+def fgetsLines (s : List Char) : List (List Char) :=
+  let rec go : Nat → List Char → List (List Char)
+    | 0, _ => []
+    | fuel + 1, s =>
+      if s.isEmpty then [] else
+      let (l, r) := fgets 100 s
+      l :: go fuel r
+  go s.length s
+
+/-! ### printer side (used in theorems and examples only) -/
+
+/-- a field right-justified in `persize` columns (Fortran `Ew.d` / `Dw.d` / `Fw.d` output) -/
+def pad (persize : Nat) (f : List Char) : List Char := List.replicate (persize - f.length) ' ' ++ f
+
+/-- one text line of the given fields, newline-terminated as `fgets` delivers it -/
+def printFieldsLine (persize : Nat) (fs : List (List Char)) : List Char := fs.flatMap (pad persize) ++ ['\n']
+
+/-- the value block of a list of field texts: lines of `perline` right-justified fields of width
+`persize`, the last line possibly shorter -/
+def printFields (perline persize : Nat) (fields : List (List Char)) : List (List Char) :=
+  if _h : perline = 0 then [] else
+  if hx : fields = [] then [] else
+    printFieldsLine persize (fields.take perline) :: printFields perline persize (fields.drop perline)
+termination_by fields.length
+decreasing_by
+  simp only [List.length_drop]
+  have : fields.length ≠ 0 := by simpa using hx
+  omega
+
+/-- `[(a, b), (c, d), ...]` of `[a, b, c, d, ...]` (a trailing single element is dropped) -/
+def pairUp : List α → List (α × α)
+  | a :: b :: rest => (a, b) :: pairUp rest
+  | _ => []
+
+end Values
+
+/-- the value block through the loops of section 9; complex values as (re, im) interleaved.  The
+conversion is `fieldValue` (exact decimal; its own `dToE` is idempotent after the loop's). -/
+def loopValues (cplx : Bool) (fmt : FloatFmt) (nz : Nat) (s : List Char) : List Rat :=
+  let lines := Values.fgetsLines s
+  if cplx then
+    (Values.readValuesCx fmt.count fmt.width (fieldValue fmt) nz lines).flatMap fun p => [p.1, p.2]
+  else Values.readValues fmt.count fmt.width (fieldValue fmt) nz lines
+
+/-- `readHBRB` with the value block read by `loopValues` (the statement-level loops of
+`[sdcz]ReadValues`) instead of the field specification of section 4; everything else is the text of
+`readHBRB`.  The driver runs both against the C readers. -/
+def readHBRBLoops (rb cplx : Bool) (s0 : List Char) : Except String Result := do
+  let (_, s) := fgets 100 s0
+  let nf := if rb then 4 else 5
+  let (tmps, s) := (List.range nf).foldl (fun (acc : List Int × List Char) _ =>
+      let (f, r) := readN 14 acc.2
+      let prev := acc.1.getLastD 0
+      (acc.1 ++ [match scanInt f with | some (v, _) => v | none => prev], r)) (([] : List Int), s)
+  let numerLines := tmps.getD 3 0
+  let rhscrd := if rb then 0 else tmps.getD 4 0
+  let s := dumpLine s
+  let (type, s) := readN 3 s
+  let (_, s) := readN 11 s
+  let (f, s) := readN 14 s; let nrow := atoi f
+  let (f, s) := readN 14 s; let ncol := atoi f
+  let (f, s) := readN 14 s; let nonz := atoi f
+  let (_, s) := readN 14 s
+  let s := dumpLine s
+  if nrow < 0 || ncol < 0 || nonz < 0 then throw "negative dimension"
+  let (f, s) := readN 16 s
+  let some (colnum, colsize) := parseIntFormat f | throw "pointer format"
+  let (f, s) := readN 16 s
+  let some (rownum, rowsize) := parseIntFormat f | throw "index format"
+  let (f, s) := readN 20 s
+  let some vfmt := parseFloatFormat f | throw "value format"
+  let s := if rb then s else (readN 20 s).2
+  let s := dumpLine s
+  let s := if rhscrd ≠ 0 then dumpLine s else s
+  let n := ncol.toNat; let nz := nonz.toNat
+  let some (cp, s) := readVector colnum colsize (n + 1) s | throw "pointer format: zero count"
+  let some (ri, s) := readVector rownum rowsize nz s | throw "index format: zero count"
+  let vpe := if cplx then 2 else 1
+  let vals := if numerLines ≠ 0 then loopValues cplx vfmt nz s else List.replicate (vpe * nz) (0 : Rat)
+  if vals.length ≠ vpe * nz then
+    throw s!"the loops stored {vals.length} numbers, {vpe * nz} announced"
+  let sym := match type with | [_, c, _] => c == 'S' || c == 's' | _ => false
+  if !sym then
+    return { m := nrow, n := ncol, nnz := nonz, colptr := cp.toArray, rowind := ri.toArray, vals := vals.toArray }
+  let some cpn := natsOf cp | throw "negative pointer"
+  let some rin := natsOf ri | throw "negative index"
+  let es := entriesOf n cpn.toArray rin.toArray vals.toArray vpe
+  if es.any (fun t => t.row ≥ n) then throw "row index out of range in a symmetric file"
+  let (colptr, out) := cscOfCols (formFull n es)
+  return resultOfCsc nrow.toNat n colptr out
 
 end Slu.Readers
